@@ -10,6 +10,7 @@ git -C /repo worktree add -q --detach "$wt" HEAD || exit 2
 [ -d /tmp/cf/target-cache ] || cp -r /repo/target /tmp/cf/target-cache
 export CARGO_TARGET_DIR=/tmp/cf/target-cache CARGO_NET_OFFLINE=true
 cd "$wt"
+ln -s /tmp/cf/target-cache target      # demonstrations that look for target/debug/... find the shared build cache
 git apply "$seed/patch.diff" || { echo "PATCH-DOES-NOT-APPLY"; exit 2; }
 if [ -f "$seed/demo_seed.rs" ]; then cp "$seed/demo_seed.rs" tests/demo_seed.rs; fi
 filter=(-E 'not binary(demo_seed)'); [ -f tests/demo_seed.rs ] || filter=()
